@@ -14,6 +14,7 @@ import re
 import os
 import time
 import z3
+from mirsym.core import zstr
 
 from checks import css_common as cc
 from lib import common
@@ -91,8 +92,8 @@ def column_contracts():
         pieces = a.fields[0] if isinstance(a, Agg) and a.name == 'Arguments' else (a,)
         for p in pieces:
             p = exe.deref_all(path, p)
-            if isinstance(p, z3.ExprRef) and z3.is_string_value(p) and all(ord(ch) < 128 for ch in p.as_string()):
-                n = len(p.as_string())
+            if isinstance(p, z3.ExprRef) and z3.is_string_value(p) and all(ord(ch) < 128 for ch in zstr(p)):
+                n = len(zstr(p))
                 append(exe, path, args[0], ascii_vec(n), z3.IntVal(n))
             else:
                 raise MirUnsupported('write_fmt of %r' % (p,))
